@@ -18,7 +18,7 @@ from __future__ import annotations
 import itertools
 
 from .core import AnalysisError
-from .interp import Obj, PyRaise, run_guarded, TaintAbort, ItemList
+from .interp import KeyList, Obj, PyRaise, run_guarded, TaintAbort, ItemList
 from . import npmodel as NP
 from .npmodel import AArr, SymScalar, t_add, t_neg, t_mul, t_recip, t_fn, t_sum, t_in, vkey, universe
 from .world import World, lists_over, SUBSET_POS, LENGTHS, with_lengths
@@ -501,7 +501,9 @@ def selection(w: World, A, kv, key_style="letter", subset_pos=None):
                 key[kname] = d
                 letters.append(l.upper())
             else:
-                key[kname] = list(chosen)
+                # several items of the dimension: a list - or any other iterable of items (tuple, the keys view of a dict)
+                form = getattr(w, "list_as", "list")
+                key[kname] = list(chosen) if form == "list" else tuple(chosen) if form == "tuple" else KeyList(chosen)
                 letters.append(l)
             axes.append(tuple(chosen))
             sel.append((l, ("v", vkey(chosen))))
@@ -594,11 +596,12 @@ def rhs_variants(kv):
     return out
 
 
-def case_setitem(prog, A, kv, rhs, key_style="letter", subset_pos=None, taint_mode="abort"):
+def case_setitem(prog, A, kv, rhs, key_style="letter", subset_pos=None, taint_mode="abort", list_as="list"):
     w = World(prog, taint_mode)
+    w.list_as = list_as
     case = Case("setitem", "__setitem__", "FlodymArray.__setitem__",
                 {"op": "x[key] = rhs", "x_dims": list(A), "selector_kinds": list(kv), "rhs": rhs, "key_by": key_style,
-                 **({"subset_positions": subset_pos} if subset_pos else {})})
+                 **({"subset_positions": subset_pos} if subset_pos else {}), **({"items_given_as": list_as} if list_as != "list" else {})})
     x = w.array("x", A)
     X = leaf_term("x", A, w)
     key, letters, axes, sel, subdims = selection(w, A, kv, key_style, subset_pos)
@@ -646,9 +649,15 @@ def case_setitem(prog, A, kv, rhs, key_style="letter", subset_pos=None, taint_mo
         yt = y.f["values"].term
         vt = t_sum({vkey(w.items(e)) for e in extra}, yt)
     snaps = w.snap(*inputs)
+    several = "list" in kv and rhs.startswith("array")
+    if several:
+        # several items picked by a list (tuple, keys view): the region keeps the dimension with only the picked items, which no
+        # array over the whole dimension fits (documented: use a subset Dimension for that) - refused, not summed or broadcast
+        expect_raise = True
     kind, r = run_guarded(lambda: w.it.call_method(x, "__setitem__", k, val))
     if expect_raise:
-        case.v("raises", kind == "raise", "a right-hand side lacking a dimension of the addressed region was not refused")
+        case.v("raises", kind == "raise", "an array over the whole dimension was accepted for a region picked by a list of items" if several else
+               "a right-hand side lacking a dimension of the addressed region was not refused")
         common_checks(case, w, inputs, snaps, kind, r, inplace_target=x)
         return finish(case, w)
     sel_eff = [(l, s) for l, s in sel if not (s[0] == "v" and s[1] == vkey(w.items(l)))]      # selecting every item restricts nothing
@@ -947,6 +956,12 @@ def case_write_unknown_in_list(prog, A, taint_mode="abort"):
 
 
 def misc_index_cases(prog, taint_mode="abort"):
+    # several items of one dimension given as something other than a list
+    for A, kv in [(("a",), ("list",)), (("b", "a"), ("absent", "list")), (("b", "a"), ("list", "single")), (("a", "b", "c"), ("single", "list", "absent"))]:
+        for form in ("tuple", "keys-view"):
+            for rhs in ("number", "ndarray", "array-same"):
+                yield lambda A=A, kv=kv, form=form, rhs=rhs: case_setitem(prog, A, kv, rhs, "letter", None, taint_mode, list_as=form)
+        yield lambda A=A, kv=kv: case_setitem(prog, A, kv, "array-same", "letter", None, taint_mode)
     for A in [("a",), ("b", "a")]:
         yield lambda A=A: case_write_unknown_in_list(prog, A, taint_mode)
     # a "subset" Dimension holding ALL items in the original order (a mere renaming): still a read that yields an independent array
